@@ -238,6 +238,169 @@ def _replay_cmp(f):
     return got == ('return', want)
 
 
+# ---- bounded stand-ins -------------------------------------------------------------------------------
+
+def xpath10_comparisons(tier, seed):
+    """XPath 1.0 (and the 1.0 compatibility mode of XPath 2.0) comparisons: node-sets, numbers, strings and booleans.
+    Oracle for 1.0: libxml2 on the same document; for the 2.0 compatibility mode: XPath 2.0 section 3.5.2 rules 1-3."""
+    import lxml.etree as LX
+    import xml.etree.ElementTree as ET
+    from elementpath import select as ep_select, XPath1Parser, XPath2Parser
+    src = '<r><a>10</a><a>9</a><b n="9">9</b><c>x</c><d/><t>true</t><z>0</z></r>'
+    r, lx = ET.XML(src), LX.XML(src)
+    ops = ['=', '!=', '<', '<=', '>', '>=']
+    terms = ['a', 'b', 'c', 'd', 'e', 't', 'z', 'b/@n', 'a|b', 'true()', 'false()', '0', '1', '9', '9.5', '-1', "'x'", "''", "'9'", "'true'", "'0'", "' 9 '",
+             '1 div 0', '-1 div 0', '0 div 0']
+    kind = lambda t: ('boolean' if t.endswith('()') else 'string' if t.startswith("'") else 'number' if t[0].isdigit() or t[0] == '-' else 'node-set')   # noqa
+    fams, n, seen = {}, 0, set()
+    for x, y in itertools.product(terms, repeat=2):
+        for op in ops:
+            expr = f'{x} {op} {y}'
+            n += 1
+            seen.add((kind(x), kind(y), op))
+            got = run_native(lambda: ep_select(r, expr, parser=XPath1Parser))
+            want = lx.xpath(expr)
+            if got != ('return', want):
+                key = f'XPath 1.0: {kind(x)} {"=" if op in ("=", "!=") else "<"} {kind(y)} differs from libxml2'
+                fams.setdefault(key, []).append({'expr': expr, 'elementpath': repr(got)[:90], 'libxml2': repr(want)})
+    # XPath 2.0 with compatibility_mode=True: rule 1 (a single boolean operand: the other operand by its effective boolean value, the
+    # operator applied to (left, right) in that order), rule 3 (order operators: both operands by fn:number, NaN for non-numbers)
+    vals = [('true()', True), ('false()', False), ('0', 0.0), ('5', 5.0), ("''", math.nan), ("'a'", math.nan), ("'0'", 0.0), ("'7'", 7.0), ('()', None),
+            ('xs:untypedAtomic("3")', 3.0), ('xs:untypedAtomic("x")', math.nan)]
+    ebv = {'true()': True, 'false()': False, '0': False, '5': True, "''": False, "'a'": True, "'0'": True, "'7'": True, '()': False,
+           'xs:untypedAtomic("3")': True, 'xs:untypedAtomic("x")': True}
+    pyop = {'=': lambda a, b: a == b, '!=': lambda a, b: a != b, '<': lambda a, b: a < b, '<=': lambda a, b: a <= b, '>': lambda a, b: a > b, '>=': lambda a, b: a >= b}
+    for (x, vx), (y, vy) in itertools.product(vals, repeat=2):
+        for op in ops:
+            isb = lambda t: t in ('true()', 'false()')     # noqa
+            if isb(x) or isb(y):
+                want = pyop[op](ebv[x], ebv[y])
+                rule = 'rule 1 (boolean operand)'
+            elif op in ('<', '<=', '>', '>='):
+                want = False if vx is None or vy is None else pyop[op](vx, vy)
+                rule = 'rule 3 (order operators by fn:number)'
+            else:
+                continue
+            n += 1
+            seen.add(('compat', rule, op))
+            expr = f'{x} {op} {y}'
+            got = run_native(lambda: ep_select(None, expr, parser=XPath2Parser, compatibility_mode=True, item=1))
+            if got != ('return', want):
+                fams.setdefault(f'XPath 2.0 compatibility mode, {rule}', []).append({'expr': expr, 'got': repr(got)[:90], 'expected': repr(want)})
+    fails = [{'key': k, 'items': it[:4], 'count': len(it), 'what': f'{k}: e.g. {it[0]}', 'expr': it[0]['expr']} for k, it in fams.items()]
+    return {'evaluations': n, 'distinct': len(seen), 'failures': fails, 'n_failures': len(fails),
+            'scope': f'{len(terms)}^2 operand pairs (node-sets incl. empty/multi-node/attribute/union, numbers incl. INF/NaN, strings, booleans) x 6 operators with '
+                     f'the XPath 1.0 parser against libxml2; {len(vals)}^2 operand pairs x 6 operators with XPath 2.0 compatibility mode against rules 1 and 3 of '
+                     'XPath 2.0 3.5.2', 'rule': 'distinct = (operand kinds, operator)'}
+
+
+def _order_grids():
+    from fractions import Fraction as Fr
+    g = {}
+    g['dayTimeDuration'] = [(f'xs:dayTimeDuration("{t}")', k) for t, k in (
+        ('-P1D', Fr(-86400)), ('-PT0.0009S', Fr(-9, 10000)), ('PT0S', Fr(0)), ('PT0.0001S', Fr(1, 10000)), ('PT0.0002S', Fr(2, 10000)), ('PT0.001S', Fr(1, 1000)),
+        ('PT0.0011S', Fr(11, 10000)), ('PT1S', Fr(1)), ('PT1M', Fr(60)), ('PT60S', Fr(60)), ('P1D', Fr(86400)), ('PT24H', Fr(86400)))]
+    g['yearMonthDuration'] = [(f'xs:yearMonthDuration("{t}")', k) for t, k in (('-P1Y', -12), ('P0M', 0), ('P1M', 1), ('P11M', 11), ('P1Y', 12), ('P12M', 12), ('P13M', 13))]
+    g['integer'] = [(str(v), Fr(v)) for v in (-2 ** 63 - 1, -1, 0, 1, 2 ** 53, 2 ** 53 + 1, 10 ** 30)]
+    g['decimal'] = [(t, Fr(t)) for t in ('-1.5', '0.0', '0.1', '0.10', '1.0', '1.000000000000000000001', '9007199254740993.0')]
+    g['string'] = [(f'"{t}"', [ord(c) for c in t]) for t in ('', 'A', 'B', 'a', 'aa', 'b', '\u00e9', '\U00010000')]
+    g['boolean'] = [('false()', 0), ('true()', 1)]
+    g['hexBinary'] = [(f'xs:hexBinary("{t}")', bytes.fromhex(t)) for t in ('', '00', '0001', '01', 'FF', 'ff')]
+    g['base64Binary'] = [(f'xs:base64Binary("{t}")', k) for t, k in (('', b''), ('AA==', b'\x00'), ('AAE=', b'\x00\x01'), ('AQ==', b'\x01'), ('/w==', b'\xff'))]
+    g['date'] = [(f'xs:date("{t}")', k) for t, k in (('-0001-12-31', -400), ('1999-12-31', 0), ('2000-01-01+14:00', 10), ('2000-01-01', 24), ('2000-01-01Z', 24),
+                                                       ('2000-01-01-12:00', 36), ('2000-01-02', 48), ('10000-01-01', 10 ** 7))]
+    g['dateTime'] = [(f'xs:dateTime("{t}")', k) for t, k in (('1999-12-31T23:59:59.999', -1), ('2000-01-01T00:00:00', 0), ('2000-01-01T00:00:00Z', 0),
+                                                               ('2000-01-01T05:00:00+05:00', 0), ('2000-01-01T00:00:00.001', 1), ('2000-01-01T00:00:00-00:01', 60000),
+                                                               ('2000-01-01T24:00:00', 86400000), ('2000-01-02T00:00:00', 86400000))]
+    g['time'] = [(f'xs:time("{t}")', k) for t, k in (('00:00:00', 0), ('00:00:00.5', 500), ('05:00:00+05:00', 0), ('12:00:00', 43200000), ('23:59:59.999', 86399999))]
+    g['double'] = [(t, k) for t, k in (('xs:double("-INF")', -math.inf), ('-1e300', -1e300), ('-0e0', 0.0), ('0e0', 0.0), ('5e-324', 5e-324), ('0.1e0', 0.1), ('1e0', 1.0),
+                                       ('9007199254740992e0', 2.0 ** 53), ('xs:double("INF")', math.inf))]
+    return g
+
+
+def order_laws(tier, seed):
+    """Value comparisons and singleton general comparisons against the order of the value space, on grids of values per type with an
+    independently computed key (exact fractions of seconds, months, code points, octets, instants with the implicit timezone UTC)."""
+    from fractions import Fraction as Fr
+    from elementpath import select as ep_select
+    fams, n, seen = {}, 0, set()
+    P = PARSERS['3.1']
+    vop = {'eq': '=', 'ne': '!=', 'lt': '<', 'le': '<=', 'gt': '>', 'ge': '>='}
+    grids = _order_grids()
+    for tname, grid in grids.items():
+        for (a, ka), (b, kb) in itertools.product(grid, repeat=2):
+            for op, fn_ in VALUE_OPS.items():
+                want = fn_(ka, kb)
+                for form, expr in (('value', f'{a} {op} {b}'), ('general', f'{a} {vop[op]} {b}')):
+                    n += 1
+                    seen.add((tname, op, form, ka == kb, ka < kb))
+                    got = run_native(lambda: ep_select(None, expr, parser=P, item=1))
+                    if got != ('return', want):
+                        fams.setdefault(f'{form} comparison {op} on xs:{tname} disagrees with the order of the value space', []).append(
+                            {'expr': expr, 'got': repr(got)[:90], 'expected': want})
+    # numeric operands of different types: compared after promotion (integer/decimal exactly, with a double as doubles)
+    nums = [(t, k, 'exact') for t, k in grids['integer'] + grids['decimal']] + [(t, k, 'double') for t, k in grids['double']]
+    for (a, ka, ca), (b, kb, cb) in itertools.product(nums, repeat=2):
+        if ca == cb == 'double':
+            continue
+        if 'double' in (ca, cb):
+            fa = float(ka) if ca == 'exact' else ka
+            fb = float(kb) if cb == 'exact' else kb
+        else:
+            fa, fb = ka, kb
+        for op, fn_ in VALUE_OPS.items():
+            want = fn_(fa, fb)
+            for form, expr in (('value', f'{a} {op} {b}'), ('general', f'{a} {vop[op]} {b}')):
+                n += 1
+                seen.add(('mixed numeric', ca, cb, op, form))
+                got = run_native(lambda: ep_select(None, expr, parser=P, item=1))
+                if got != ('return', want):
+                    fams.setdefault(f'{form} comparison {op} of numeric operands of different types ({ca} with {cb}) disagrees with the promoted values', []).append(
+                        {'expr': expr, 'got': repr(got)[:90], 'expected': want})
+    # general comparisons of two xs:untypedAtomic values compare strings; value comparisons on types without an order raise XPTY0004
+    extra = [('xs:untypedAtomic("10") < xs:untypedAtomic("9")', True), ('xs:untypedAtomic("10") > xs:untypedAtomic("9")', False),
+             ('xs:untypedAtomic("1") = xs:untypedAtomic("1.0")', False), ('xs:untypedAtomic("a") <= xs:untypedAtomic("a")', True),
+             ('xs:gYear("2000") lt xs:gYear("2001")', 'XPTY0004'), ('xs:gYear("2000") eq xs:gYear("2000")', True), ('xs:gMonthDay("--01-01") gt xs:gMonthDay("--01-02")', 'XPTY0004'),
+             ('xs:QName("a") lt xs:QName("b")', 'XPTY0004'), ('xs:duration("P1D") le xs:duration("P1D")', 'XPTY0004'),
+             ('xs:hexBinary("00") eq xs:base64Binary("AA==")', 'XPTY0004'), ('xs:date("2000-01-01") eq xs:dateTime("2000-01-01T00:00:00")', 'XPTY0004'),
+             ('xs:time("00:00:00") eq xs:date("2000-01-01")', 'XPTY0004'), ('1 eq "1"', 'XPTY0004'), ('true() eq 1', 'XPTY0004')]
+    for expr, want in extra:
+        n += 1
+        seen.add(('extra', expr))
+        got = run_native(lambda: ep_select(None, expr, parser=P, item=1))
+        ok = (got[0] == 'raise' and str(getattr(got[1], 'code', '')).endswith(want)) if isinstance(want, str) else got == ('return', want)
+        if not ok:
+            fams.setdefault(f'`{expr}`', []).append({'expr': expr, 'got': repr(got)[:90], 'expected': want})
+    # XSD 1.1: xs:dateTimeStamp is derived from xs:dateTime, the two compare in both operand orders
+    for a, b, ka, kb in (('xs:dateTime("2000-01-01T00:00:00Z")', 'xs:dateTimeStamp("2000-01-01T00:00:01Z")', 0, 1),
+                         ('xs:dateTimeStamp("2000-01-01T00:00:01Z")', 'xs:dateTime("2000-01-01T00:00:00Z")', 1, 0),
+                         ('xs:dateTimeStamp("2000-01-01T00:00:00Z")', 'xs:dateTime("2000-01-01T01:00:00+01:00")', 0, 0),
+                         ('xs:dateTimeStamp("2000-01-01T00:00:00Z")', 'xs:dateTimeStamp("2000-01-01T00:00:00Z")', 0, 0)):
+        for op, fn_ in VALUE_OPS.items():
+            for form, expr in (('value', f'{a} {op} {b}'), ('general', f'{a} {vop[op]} {b}')):
+                n += 1
+                seen.add(('dateTimeStamp', op, form))
+                got = run_native(lambda: ep_select(None, expr, parser=P, xsd_version='1.1', item=1))
+                if got != ('return', fn_(ka, kb)):
+                    fams.setdefault(f'XSD 1.1: {form} comparison between xs:dateTime and xs:dateTimeStamp', []).append({'expr': expr, 'got': repr(got)[:90], 'expected': fn_(ka, kb)})
+    fails = [{'key': k, 'items': it[:4], 'count': len(it), 'what': f'{k}: e.g. {it[0]}', 'expr': it[0]['expr']} for k, it in fams.items()]
+    return {'evaluations': n, 'distinct': len(seen), 'failures': fails, 'n_failures': len(fails),
+            'scope': f'{len(grids)} ordered types x all pairs of a value grid (5-12 values each: sub-millisecond durations, equal values with different lexical forms, '
+                     'timezones, BCE/5-digit years, 24:00:00, integers around 2**53 and beyond 2**64, signed zeros, INF) x 6 operators x value/general form; mixed numeric '
+                     'types after promotion; untypedAtomic pairs; types without order; XSD 1.1 dateTimeStamp', 'rule': 'distinct = (type, operator, form, order class of the pair)'}
+
+
+def _replay_expr_c07(f):
+    print('replay: re-running the bounded check for', f.get('key'))
+    for fn_ in (xpath10_comparisons, order_laws):
+        r = fn_('quick', 0)
+        if any(x['key'] == f.get('key') for x in r['failures']):
+            return False
+    return True
+
+
+BOUNDED = [Bounded('xpath10_and_compatibility_mode_comparisons', xpath10_comparisons, _replay_expr_c07),
+           Bounded('order_laws_on_value_grids', order_laws, _replay_expr_c07)]
 GROUND = [Bounded('comparison_matrix_vs_FO_table', ground_comparison_matrix, _replay_cmp)]
 NOT_DECIDED = ['collation-dependent string order (strcoll in libc)',
                'order laws for all values of the date/time and binary types: the matrix uses two values per type']
